@@ -382,6 +382,7 @@ let () =
   | _ :: "spec" :: _ -> Specdrv.run ()
   | _ :: "cps" :: _ -> Cpsdrv.run_cps ()
   | _ :: "fold" :: _ -> Cpsdrv.run_fold ()
+  | _ :: "foldeq" :: _ -> Cpsdrv.run_foldeq ()
   | _ :: "props" :: _ -> Cpsdrv.run_props ()
   | _ :: "searcher" :: _ -> Srchdrv.run ()
   | _ -> main_exec ()
